@@ -24,6 +24,10 @@ func GenSchemaDoc(r *rand.Rand, depth int) *refavro.Schema {
 
 func genSchemaDoc(r *rand.Rand, depth int, inUnion bool) *refavro.Schema {
 	if depth <= 0 || r.IntN(100) < 35 {
+		if r.IntN(12) == 0 {
+			// a bare-string reference to a named type; named types may be called anything, also like a keyword
+			return &refavro.Schema{Type: pick(r, []string{"union", "record", "array", "map", "enum", "fixed", "a.b.C", "Rec_1", "x", "error", "type", "null_", "Union"}), BareRef: true}
+		}
 		s := &refavro.Schema{Type: pick(r, primNames)}
 		if r.IntN(3) == 0 {
 			s.ObjectForm = true
@@ -165,6 +169,10 @@ func RenderSchemaDoc(r *rand.Rand, s *refavro.Schema) string {
 }
 
 func renderDoc(r *rand.Rand, b *strings.Builder, s *refavro.Schema) {
+	if s.BareRef {
+		b.WriteString(jsonString(r, s.Type))
+		return
+	}
 	if s.Type == "union" {
 		b.WriteString("[" + ws(r))
 		for i, br := range s.Branches {
